@@ -944,6 +944,9 @@ impl Handler {
                     );
                     #[cfg(feature = "verif-hooks")]
                     crate::verif::hit("handler.handshake_error_after_challenge_consumed");
+                    // The challenge has been consumed by this packet, so the filter no longer
+                    // expects an answer to it.
+                    self.remove_expected_response(node_address.socket_addr);
                     self.fail_session(&node_address, RequestError::InvalidRemotePacket, true)
                         .await;
                 }
